@@ -692,27 +692,26 @@ func GetVariantsPair(ref, query []byte, refID, queryID string, idx int, cdsregio
 		return variants[i].Position < variants[j].Position || (variants[i].Position == variants[j].Position && variants[i].Changetype < variants[j].Changetype)
 	})
 
-	// there might be dups if there was a snp in the region of a join()
+	// there might be dups if there was a snp in the region of a join(), or if two features have the same name.
+	// Equal records have the same position and type, so after the sort they lie in one run of records with that
+	// position and type - but not necessarily next to each other
 	finalVariants := make([]Variant, 0)
-	previousVariant := Variant{}
-	for i, v := range variants {
-		if i == 0 {
-			// don't want deletions that abut the start of the sequence
-			if v.Changetype == "del" && v.Position == 0 {
-				continue
-			}
-			finalVariants = append(finalVariants, v)
-			previousVariant = v
-			continue
-		}
+	for _, v := range variants {
+		// don't want deletions that abut the start of the sequence
 		if v.Changetype == "del" && v.Position == 0 {
 			continue
 		}
-		if v == previousVariant {
+		dup := false
+		for k := len(finalVariants) - 1; k >= 0 && finalVariants[k].Position == v.Position && finalVariants[k].Changetype == v.Changetype; k-- {
+			if finalVariants[k] == v {
+				dup = true
+				break
+			}
+		}
+		if dup {
 			continue
 		}
 		finalVariants = append(finalVariants, v)
-		previousVariant = v
 	}
 
 	// and we're done
